@@ -234,16 +234,19 @@ def two_objects(rec, kind, types, depth, only=None):
     ops = [[w, t, v] for w in ('X', 'Y') for t in types for v in (0.1, 0.8)]
 
     def run_hist(hist):
-        X, Y = build(kind, tX), build(kind, tY)
+        X, Y = build(kind, tX), None                 # Y is constructed at its first use, i.e. while X already has a history
         mX, mY = {t: None for t in tX}, {t: None for t in tY}
         for n, (w, t, v) in enumerate(hist):
             try:
                 if w == 'X':
                     mX = step(X, mX, tX, [t, v])
                 else:
+                    if Y is None:
+                        Y = build(kind, tY)
                     mY = step(Y, mY, tY, [t, v])
-                probs = [(k, 'object X%s: %s' % (tX, m)) for k, m in invariant(kind, X, mX, tX)] + \
-                        [(k, 'object Y%s: %s' % (tY, m)) for k, m in invariant(kind, Y, mY, tY)]
+                probs = [(k, 'object X%s: %s' % (tX, m)) for k, m in invariant(kind, X, mX, tX)]
+                if Y is not None:
+                    probs += [(k, 'object Y%s (constructed later): %s' % (tY, m)) for k, m in invariant(kind, Y, mY, tY)]
             except Exception as e:
                 probs = [('raises', 'assignment %r raised %s: %s' % ((w, t, v), type(e).__name__, str(e)[:80]))]
             rec.trans()
